@@ -5,6 +5,7 @@ import Gv.Model.Fmt.Clustal
 import Gv.Model.Fmt.Nexus
 import Gv.Model.Fmt.Partition
 import Gv.Proofs.PartitionRange
+import Gv.Proofs.StockholmOutcome
 /-!
 C03 — parsers terminate on every input with an error or a well-formed result.
 
@@ -185,5 +186,140 @@ theorem newPSet_inv (len : Nat) (h : (len : Int) < 9223372036854775808) :
   intro p hp
   simp [Partition.newPSet] at hp
   omega
+
+/-! ## Stockholm: outcome theorems for ALL byte strings -/
+
+open Gv.Proofs.StockholmOutcome in
+/-- what a successful Stockholm parse looks like, from the loop invariant -/
+private theorem stockholm_ok (m e : Bool) (o : POpts) (bs : List Byte) (a : Aln)
+    (h : Stockholm.parse m e o bs = .ok a) :
+    (a.rows ≠ [] → Spec.Fmt.wellFormed a.length a.rows = true) ∧ (a.rows = [] → e = false ∧ a.length = -1) := by
+  unfold Stockholm.parse at h
+  split at h
+  · split at h
+    · simp only at h
+      split at h
+      · simp at h
+      · split at h
+        · rename_i bag hloop
+          have hinv := loop_ok_inv m _ _ _ bag (inv_empty _) hloop
+          split at h
+          · simp at h
+          · rename_i hc
+            simp only [Bool.or_eq_true, Bool.and_eq_true, beq_iff_eq, not_or, not_and] at hc
+            cases hf : bag.finish (normAlphabet o.alphabet) with
+            | none => simp [hf] at h
+            | some a' =>
+              simp [hf] at h; subst h
+              obtain ⟨hr, hl⟩ := finish_rows bag _ a' hf
+              rw [hr, hl]
+              constructor
+              · intro hne
+                apply wellFormed_of_inv bag hinv _ hne
+                intro _
+                -- some row has the cached length, which is not 0
+                cases hrows : bag.rows with
+                | nil => exact absurd hrows hne
+                | cons r t =>
+                  have := hinv.2.1 r (by rw [hrows]; simp)
+                  have h0 : bag.length ≠ 0 := hc.2
+                  omega
+              · intro he
+                refine ⟨?_, hinv.1 he⟩
+                cases e with
+                | false => rfl
+                | true => simp [he] at hc
+        all_goals simp at h
+    · simp at h
+  · simp at h
+
+open Gv.Proofs.StockholmOutcome in
+/-- **Stockholm, both variants of each guard** (`m` = the markup loop stops at EOF, `e` = an empty result is
+rejected): for ALL byte strings and options the model parser never panics and never exits; it can report
+`hang` only without the markup repair; a success with rows is well formed, and a success WITHOUT rows
+(length −1) is possible only without the emptiness repair.
+Missing for the full C03 statement (for the code as it is): no hang and `a.rows ≠ []` — both false,
+see `stockholm_counterexample_hang` / `stockholm_counterexample_empty`. -/
+theorem stockholm_outcome_partial (m e : Bool) (o : POpts) (bs : List Byte) :
+    match Stockholm.parse m e o bs with
+    | .ok a => (a.rows ≠ [] → Spec.Fmt.wellFormed a.length a.rows = true) ∧
+               (a.rows = [] → e = false ∧ a.length = -1)
+    | .error => True
+    | .hang => True
+    | .exit | .panic => False := by
+  cases hp : Stockholm.parse m e o bs with
+  | ok a => exact stockholm_ok m e o bs a hp
+  | error => trivial
+  | hang => trivial
+  | exit =>
+    exfalso
+    unfold Stockholm.parse at hp
+    split at hp
+    · split at hp
+      · simp only at hp
+        split at hp
+        · simp at hp
+        · split at hp
+          · split at hp
+            · simp at hp
+            · split at hp <;> simp at hp
+          · simp at hp
+          · rename_i hl; exact (loop_kinds m _ _ _).2 hl
+          · simp at hp
+          · simp at hp
+      · simp at hp
+    · simp at hp
+  | panic =>
+    exfalso
+    unfold Stockholm.parse at hp
+    split at hp
+    · split at hp
+      · simp only at hp
+        split at hp
+        · simp at hp
+        · split at hp
+          · split at hp
+            · simp at hp
+            · split at hp <;> simp at hp
+          · simp at hp
+          · simp at hp
+          · rename_i hl; exact (loop_kinds m _ _ _).1 hl
+          · simp at hp
+      · simp at hp
+    · simp at hp
+
+open Gv.Proofs.StockholmOutcome in
+/-- **Stockholm with the proposed patch** (`proposed_fixes/c03-stockholm.diff`): the full C03 statement for
+all byte strings and all options — an explicit error or a well-formed alignment; never a panic, never a
+hang (the fuel of the model's loops is proved sufficient), never an empty success. -/
+theorem stockholm_outcome_fixed (o : POpts) (bs : List Byte) : Good (Stockholm.parse true true o bs) := by
+  cases hp : Stockholm.parse true true o bs with
+  | ok a =>
+    have := stockholm_ok true true o bs a hp
+    simp only [Good]
+    by_cases hne : a.rows = []
+    · have := (this.2 hne).1; simp at this
+    · exact this.1 hne
+  | error => trivial
+  | exit => trivial
+  | panic => have := stockholm_outcome_partial true true o bs; rw [hp] at this; exact this
+  | hang =>
+    exfalso
+    unfold Stockholm.parse at hp
+    split at hp
+    · split at hp
+      · simp only at hp
+        split at hp
+        · simp at hp
+        · split at hp
+          · split at hp
+            · simp at hp
+            · split at hp <;> simp at hp
+          · simp at hp
+          · simp at hp
+          · simp at hp
+          · rename_i hl; exact loop_no_hang _ _ _ (by omega) hl
+      · simp at hp
+    · simp at hp
 
 end Gv.Props.C03
